@@ -1,22 +1,32 @@
 #!/venv/bin/python
-"""usage: matrix.py <seed-id> <prop> [<prop>...]  - apply /verif/seeded/<id>/patch.diff to /repo, run quick checks, revert, record in meta.json"""
-import json, os, subprocess, sys
+"""usage: matrix.py <seed-id> <prop> [<prop>...]
+Runs quick checks against a seeded change WITHOUT touching /repo: a scratch worktree of /repo's HEAD gets seeded/<id>/patch.diff applied and is put
+first on PYTHONPATH (the checks import exponax from there).  Results are recorded in seeded/<id>/meta.json (detected_by).
+(The own-property detection of every seed was additionally confirmed with tools/mut.sh, i.e. git -C /repo apply ... ; ./check ; git checkout.)"""
+import json, os, subprocess, sys, shutil
 sid, props = sys.argv[1], sys.argv[2:]
 d = f"/verif/seeded/{sid}"
-assert not subprocess.run(["git", "-C", "/repo", "status", "--porcelain", "--", "exponax"], capture_output=True, text=True).stdout.strip(), "/repo not clean"
-subprocess.run(["git", "-C", "/repo", "apply", f"{d}/patch.diff"], check=True)
+wt = f"/tmp/seed/mx_{sid}"
+subprocess.run(["git", "-C", "/repo", "worktree", "remove", "--force", wt], capture_output=True)
+subprocess.run(["git", "-C", "/repo", "worktree", "add", "-q", "--detach", wt, "HEAD"], check=True)
 res = {}
 try:
+    subprocess.run(["git", "-C", wt, "apply", f"{d}/patch.diff"], check=True)
+    os.makedirs("/tmp/seed/mx_evidence", exist_ok=True)
+    env = dict(os.environ, PYTHONPATH=wt, VERIF_EVIDENCE_DIR="/tmp/seed/mx_evidence", VERIF_REPLAY_DIR="/tmp/seed/mx_replays")
+    chk = subprocess.run(["/venv/bin/python", "-c", "import exponax; print(exponax.__file__)"], env=env, capture_output=True, text=True, cwd="/verif").stdout.strip()
+    assert chk.startswith(wt), chk
     for p in props:
-        r = subprocess.run(["./check", p, "--tier", os.environ.get("TIER", "quick")], cwd="/verif", capture_output=True, text=True)
-        sigs = [l.strip()[len("violation "):].split(":")[0] for l in r.stdout.splitlines() if l.strip().startswith("violation ")]
-        res[p] = {"rc": r.returncode, "violation_lines": r.stdout.count("\nVIOLATION ") + r.stdout.startswith("VIOLATION "), "signatures": sigs[:6]}
-        print(sid, p, "rc=%d" % r.returncode, sigs[:3])
+        r = subprocess.run(["./check", p, "--tier", os.environ.get("TIER", "quick")], cwd="/verif", capture_output=True, text=True, env=env)
+        sigs = [l.strip()[len("violation "):].split(": ")[0] for l in r.stdout.splitlines() if l.strip().startswith("violation ")]
+        res[p] = {"rc": r.returncode, "violation_lines": sum(1 for l in r.stdout.splitlines() if l.startswith("VIOLATION ")), "signatures": sigs[:6]}
+        print(sid, p, "rc=%d" % r.returncode, sigs[:3], flush=True)
 finally:
-    subprocess.run(["git", "-C", "/repo", "checkout", "--", "exponax"], check=True)
+    subprocess.run(["git", "-C", "/repo", "worktree", "remove", "--force", wt], capture_output=True)
 m = json.load(open(f"{d}/meta.json"))
 db = m.get("detected_by") if isinstance(m.get("detected_by"), dict) else {}
 db.update(res)
 m["detected_by"] = db
-m["ran"] = "tools/matrix.py: git -C /repo apply patch.diff; ./check <prop> --tier quick; git -C /repo checkout -- exponax"
+m["ran"] = ("tools/matrix.py: scratch worktree of /repo HEAD + patch.diff on PYTHONPATH, ./check <prop> --tier quick; own-property detection also confirmed with "
+            "tools/mut.sh (git -C /repo apply patch.diff; ./check; git -C /repo checkout -- exponax)")
 json.dump(m, open(f"{d}/meta.json", "w"), indent=1)
